@@ -14,11 +14,12 @@
 (***************************************************************************)
 EXTENDS GCPMEGhost, Json
 
-CONSTANTS MaxDepth, Endpoints, OptSets, MaxRpc, Ticks   \* Ticks: clock advances offered as inputs (no effect without timers)
+CONSTANTS MaxDepth, Endpoints, OptSets, MaxRpc, MaxSever, Ticks   \* Ticks: clock advances offered as inputs (no effect without timers)
 
 VARIABLES alive, closed, mes, def, pools, up, cur, conns, g, ev, hist,
+          sev,      \* endpoints whose pool connection the application closed itself (the pool stays in `pools' until an update drops it)
           pmes      \* history variable: the MultiEndpoints of the option set accepted before the current one
-mvars == <<alive, closed, mes, def, pools, up, cur, conns>>
+mvars == <<alive, closed, mes, def, pools, up, cur, conns, sev>>
 vars == <<mvars, g, ev, hist, pmes>>
 
 \* OptSets is a set of indices into the catalogue of option sets below (kept small and explicit)
@@ -39,7 +40,7 @@ Catalogue == <<
 
 Init ==
   /\ alive = FALSE /\ closed = FALSE /\ mes = <<>> /\ def = "" /\ pools = {} /\ up = Endpoints
-  /\ cur = <<>> /\ conns = <<>> /\ pmes = <<>>
+  /\ cur = <<>> /\ conns = <<>> /\ pmes = <<>> /\ sev = {}
   /\ g = GGInit
   /\ ev = [op |-> "reset"]
   /\ hist = <<>>
@@ -93,13 +94,15 @@ Configure(op, k, fd) ==
                /\ Commit([e0 EXCEPT !.res = "ERR", !.conns = cs2,
                                     !.dials = [i \in DOMAIN dl |-> [e |-> dl[i], ok |-> TRUE]] \o <<[e |-> failedAt, ok |-> FALSE]>>,
                                     !.pools = SetToSeq(IF op = "new" THEN {} ELSE pools \cup S)], inp)
-               /\ UNCHANGED <<alive, closed, mes, def, up, cur, pmes>>
+               /\ UNCHANGED <<alive, closed, mes, def, up, cur, pmes, sev>>
      ELSE LET dl == SetToSeq(newEps)
               cs2 == CloseConns(conns, pools \ Mentioned(o.mes)) \o [i \in DOMAIN dl |-> [e |-> dl[i], shut |-> FALSE]]
-              keptAvail == up \cap pools \cap Mentioned(o.mes)
+              sev2 == sev \cap Mentioned(o.mes)      \* a severed pool that is still wanted is kept as it is; a dropped one is forgotten
+              keptAvail == (up \ sev) \cap pools \cap Mentioned(o.mes)
               r0 == MechRoutes(cur, o.mes, keptAvail)
-              r1 == MechRoutes(r0, o.mes, up \cap Mentioned(o.mes))
-          IN /\ alive' = TRUE /\ mes' = o.mes /\ def' = o.def /\ pools' = Mentioned(o.mes) /\ cur' = r1 /\ conns' = cs2 /\ pmes' = mes
+              r1 == MechRoutes(r0, o.mes, (up \ sev2) \cap Mentioned(o.mes))
+          IN /\ sev' = sev2
+             /\ alive' = TRUE /\ mes' = o.mes /\ def' = o.def /\ pools' = Mentioned(o.mes) /\ cur' = r1 /\ conns' = cs2 /\ pmes' = mes
              /\ Commit([e0 EXCEPT !.conns = cs2, !.dials = [i \in DOMAIN dl |-> [e |-> dl[i], ok |-> TRUE]],
                                   !.pools = SetToSeq(Mentioned(o.mes)), !.routes0 = r0, !.routes = r1], inp)
              /\ UNCHANGED <<closed, up>>
@@ -107,11 +110,23 @@ Configure(op, k, fd) ==
 Flip(e, toUp) ==
   /\ (e \in up) # toUp
   /\ up' = IF toUp THEN up \cup {e} ELSE up \ {e}
-  /\ LET r == IF alive /\ ~closed THEN MechRoutes(cur, mes, up' \cap pools) ELSE cur
+  /\ LET r == IF alive /\ ~closed THEN MechRoutes(cur, mes, (up' \ sev) \cap pools) ELSE cur
          op == IF toUp THEN "up" ELSE "down"
      IN /\ cur' = r
         /\ Commit([BaseEv(op) EXCEPT !.e = e, !.routes0 = cur, !.routes = r, !.pools = SetToSeq(pools)], [op |-> op, e |-> e])
-  /\ UNCHANGED <<alive, closed, mes, def, pools, conns, pmes>>
+  /\ UNCHANGED <<alive, closed, mes, def, pools, conns, pmes, sev>>
+
+\* the application closes the ClientConn it handed out through DialFunc for endpoint e (or the connection is closed under the
+\* object in any other way): the pool stays, its monitor reports SHUTDOWN = unavailable, and closing it again later fails
+Sever(e) ==
+  /\ alive /\ ~closed /\ e \in pools \ sev
+  /\ Cardinality({i \in DOMAIN hist : hist[i].op = "sever"}) < MaxSever
+  /\ sev' = sev \cup {e}
+  /\ conns' = CloseConns(conns, {e})
+  /\ LET r == MechRoutes(cur, mes, (up \ sev') \cap pools)
+     IN /\ cur' = r
+        /\ Commit([BaseEv("sever") EXCEPT !.e = e, !.conns = conns', !.routes0 = cur, !.routes = r, !.pools = SetToSeq(pools)], [op |-> "sever", e |-> e])
+  /\ UNCHANGED <<alive, closed, mes, def, pools, up, pmes>>
 
 Rpc(n) ==
   /\ alive /\ ~closed
@@ -119,7 +134,7 @@ Rpc(n) ==
   /\ LET target == IF n # "" /\ n \in Names(mes) THEN n ELSE def
          S == {i \in DOMAIN cur : cur[i].name = target}
          e == cur[CHOOSE i \in S : TRUE].e
-     IN Commit([BaseEv("rpc") EXCEPT !.name = n, !.res = IF e \in up THEN "OK" ELSE "ERR", !.srv = IF e \in up THEN e ELSE "",
+     IN Commit([BaseEv("rpc") EXCEPT !.name = n, !.res = IF e \in up \ sev THEN "OK" ELSE "ERR", !.srv = IF e \in up \ sev THEN e ELSE "",
                                      !.pools = SetToSeq(pools)], [op |-> "rpc", name |-> n])
   /\ UNCHANGED <<mvars, pmes>>
 
@@ -134,12 +149,13 @@ Close ==
   /\ closed' = TRUE
   /\ conns' = [i \in DOMAIN conns |-> [conns[i] EXCEPT !.shut = TRUE]]
   /\ Commit([BaseEv("close") EXCEPT !.conns = conns', !.pools = SetToSeq(pools)], [op |-> "close"])
-  /\ UNCHANGED <<alive, mes, def, pools, up, cur, pmes>>
+  /\ UNCHANGED <<alive, mes, def, pools, up, cur, pmes, sev>>
 
 Next ==
   /\ Len(hist) < MaxDepth
   /\ \/ \E k \in OptSets, fd \in {0, 1, 2} : Configure(IF alive THEN "update" ELSE "new", k, fd)
      \/ \E e \in Endpoints, b \in BOOLEAN : Flip(e, b)
+     \/ \E e \in Endpoints : Sever(e)
      \/ \E n \in {"", "m1", "m2", "zz"} : Rpc(n)
      \/ \E n \in Ticks : Tick(n)
      \/ Close
@@ -154,7 +170,7 @@ P16 == [][\A c \in {x \in GClauses(g, ev', g') : x.id \in {"C16_a", "C16_b", "C1
 TypeOK ==
   /\ alive /\ ~closed => Mentioned(mes) \subseteq pools
   /\ alive => Len(cur) = Cardinality(Names(mes))
-GhostAgrees == alive /\ ~closed => (g.cur = cur /\ g.mes = mes /\ g.def = def /\ g.up \cap Endpoints = up)
+GhostAgrees == alive /\ ~closed => (g.cur = cur /\ g.mes = mes /\ g.def = def /\ g.up \cap Endpoints = up /\ g.sev = sev)
 
 \* the previously accepted option set is part of the view: two histories that reach the same mechanism state from different
 \* configurations are both extended (a broken implementation may differ only along one of them, e.g. after a list lost its tail)
